@@ -23,7 +23,7 @@ STORAGE = ["plain", "transposed", "strided", "reshaped", "shared-base"]
 def gen_cases(tier, seed):
     rng = gen.rng_for(seed, "c11", tier)
     cases = []
-    budget = {"quick": 120, "thorough": 900}[tier]
+    budget = {"quick": 120, "thorough": 4000}[tier]
     for name, op in OPS.items():
         g = catalog.grid(name, tier, rng)
         items = [(s, a, f) for s, a in g for f in op.forms if not (f in ("left", "right") and a.get("side") != f)]
@@ -33,14 +33,14 @@ def gen_cases(tier, seed):
             vopts = catalog.vclass_options(op, args)
             cases.append({"kind": "tensor", "op": name, "form": form, "shapes": shapes, "args": args, "vclass": vopts[n % len(vopts)],
                           "storage": STORAGE[n % len(STORAGE)], "dtype": ["float64", "float32"][n % 2], "seed": int(rng.integers(2 ** 31))})
-    for c in nncommon.build_cases(tier, seed, "c11", budget={"quick": 100, "thorough": 700}[tier]):
+    for c in nncommon.build_cases(tier, seed, "c11", budget={"quick": 100, "thorough": 2500}[tier]):
         c["kind"] = "nn"
         if c["n"] % 3 == 0 and c["op"] in ("relu", "leaky_relu", "selu", "tanh", "sigmoid", "softmax", "log_softmax", "bce_with_logits", "cross_entropy"):
             c["a"] = dict(c["a"], vclass="large")            # saturating magnitudes: clamps / overflow guards must not be written into the operand
         c["storage"] = STORAGE[c["n"] % 4]
         c["dtype"] = ["float64", "float32"][c["n"] % 2]
         cases.append(c)
-    for k in range(60 if tier == "quick" else 1500):
+    for k in range(60 if tier == "quick" else 6000):
         cases.append({"kind": "program", "seed": int(rng.integers(2 ** 31)), "n_instr": int(rng.integers(3, 25))})
     for k in range(6 if tier == "quick" else 60):
         cases.append({"kind": "mutators", "seed": int(rng.integers(2 ** 31))})
@@ -330,4 +330,4 @@ def teardown(ns, mon):
 def finish(agg, tier):
     c = agg["counters"]
     return [f"zero-events:{k}" for k in ("forward_snapshots", "backward_snapshots", "repeat_digests", "follow_up_sequences", "program_sweeps",
-                                         "mutator_checks", "kernel_calls") if not c.get(k)]
+                                         "mutator_checks") if not c.get(k)]
